@@ -201,7 +201,7 @@ package table
 // not produced by Data.Encode (a stored prefix length above the previous key's length, a length field
 // beyond the input) Decode can panic; the property is about decoding what was encoded
 //@ thin ^assert|^loop
-//@ assigns everything
+//@ assigns writeset
 //@ before_call (*utils.ErrorReader).Read#0: ghost DP = RdPos[ref(reader)]
 //@ after_call (*utils.ErrorReader).Read#0: assert dHyp(ref(reader), DP) ==> (r.err == nil && lcp == DL && RdPos[ref(reader)] == DP + 2)
 //@ after_call (*utils.ErrorReader).Read#1: assert dHyp(ref(reader), DP) ==> (r.err == nil && suffixLen == dN1() && RdPos[ref(reader)] == DP + 4)
